@@ -21,7 +21,7 @@ from lib import clist, cstr, cbool
 
 warnings.filterwarnings("ignore")
 
-N = {"quick": 130, "thorough": 1400}
+N = {"quick": 100, "thorough": 1200}
 PRE = ("From Coq Require Import List Bool ZArith QArith String.\nImport ListNotations.\nOpen Scope string_scope.\n"
        "From DA Require Import Base.PyRT Base.Cases Base.Val Model.Sem Model.SemCases Model.SqlGen Model.SqlSem Model.SqlGenCases.\n"
        "Open Scope list_scope.\n")
@@ -347,13 +347,57 @@ def run(chk):
     chk.cov["traces_validated_against_impl"] = nchecked
     if errors:
         chk.corr_break("correspondence case files failed to compile", errors[0])
-    seen = set()
+    todo, seen = [], set()
     for i in failing:
         ci, kind, merges = index[i]
-        if (ci, kind) in seen:
-            continue
-        seen.add((ci, kind))
+        if (ci, kind) not in seen:
+            seen.add((ci, kind))
+            todo.append((ci, kind, merges))
+    chk.cov["correspondence"]["failing_cases"] = len(todo)
+
+    def differs(t):
+        try:
+            return pandas_vs_sqlite(cases[t[0]]) is not None
+        except Exception:
+            return False
+    todo.sort(key=lambda t: (0 if differs(t) else 1, pipes.script_depth(cases[t[0]].script)))
+    for ci, kind, merges in todo[:3]:          # the smallest failing inputs, real Pandas/SQL differences first
         report(chk, cases[ci], kind, merges)
+
+
+def case_term(case, kind, merges):
+    if uses_cross(case.ops):
+        return None
+    if kind == "struct":
+        return struct_term(case, merges)
+    if kind == "distinct":
+        return "CDistinct %s %s" % (dname(True), semconv.cop(case.ops))
+    res, err = case.result("sqlite")
+    if res is None:
+        return None
+    return sem_term(case, res)
+
+
+def shrink_batch(case, kind, merges):
+    """the smallest sub-pipeline of `case` on which the same correspondence still fails (ONE Coq run over all candidates)"""
+    cands = []
+    for s in sorted(X.sub_scripts(case.script), key=pipes.script_depth):
+        if s is case.script or s["op"] == "table":
+            continue
+        try:
+            c2 = X.Case(s, case.tabs, pipes.build(s, case.tables))
+            t = case_term(c2, kind, merges)
+            if t is not None:
+                cands.append((c2, t))
+        except Exception:
+            continue
+    if not cands:
+        return case
+    failing, errors, n = lib.run_case_files("SQLGEN_shrink", PRE, [t for _, t in cands], "check_cases", per_file=12, timeout=600)
+    for k in sorted(failing):
+        if k < len(cands):
+            return cands[k][0]
+    return case
 
 
 def still_fails(kind, merges):
@@ -383,7 +427,7 @@ def report(chk, case, kind, merges):
             "distinct": "the generated view names are not pairwise distinct"}[kind]
     small = case
     try:
-        small = X.shrink_case(case, still_fails(kind, merges), max_steps=12)
+        small = shrink_batch(case, kind, merges)
     except Exception:
         pass
     why = None
